@@ -13,7 +13,7 @@ git merge --no-commit "wip-c$N" >/dev/null 2>&1 || {
 }
 python3 tools/gen_consts.py
 python3-vt tools/mkmanifest.py
-(cd lean && lake build 2>&1 | grep -v "^✔" | tail -15)
+(cd lean && lake build > /tmp/integrate_build.log 2>&1) || { echo "LAKE BUILD FAILED after merging wip-c$N (merge left uncommitted):"; grep -B2 -A20 "^error" /tmp/integrate_build.log | head -60; exit 1; }
 tools/check "C$N" --tier quick 2>&1 | grep -E "^(VIOLATION|KNOWN-FINDING|C$N:)" | head -30
 git add -A
 git commit -qm "Merge C$N from wip-c$N" || true
